@@ -163,9 +163,13 @@ func (sm *SessionManager) Close() error {
 	sm.cancelFunc()
 	sm.wg.Wait()
 	verifTrace("SMClosing", sm, nil, 0, 0)
+	// under the manager lock: a hot restart handler which passed its closed check before the cancellation holds the
+	// lock while it connects and swaps its new session into sm.pools; wait for it and close what it installed.
+	sm.Lock()
 	for i := 0; i < len(sm.pools); i++ {
 		sm.pools[i].close()
 	}
+	sm.Unlock()
 	verifTrace("SMClosed", sm, nil, 0, 0)
 	return nil
 }
